@@ -1,5 +1,5 @@
 """C13 evolution integrals: j(a0,a0)=0, local derivative law, expanded = Taylor truncation
-(order of vanishing of exact - expanded), cubic roots at N3LO.
+(order of vanishing of exact - expanded, and equality with the integrated Taylor polynomial), cubic roots at N3LO.
 
 The integrand of j^{(k)}_level is  a^k / (beta0 a^2 (1 + b1 a + ... + b_{level-1} a^{level-1}));
 beta0 and the b's come from the independent table (bsrc = nf) or are random positive numbers
@@ -203,6 +203,25 @@ def measure(cell, seed, npts):
             return {"resolved": False, "why": "no sampled point where the leading neglected Taylor term dominates the next one and the difference exceeds 1e3 x cancellation noise", "exp100": 0}
         e = min(exps)
         return {"exp100": c.exp100(e), "raw": e, "resolved": True, "n": len(exps), "dropped_points": unresolved}
+
+    if clause == "trunc":
+        # the expanded integral IS the integrated Taylor polynomial (coefficients from the harness' own
+        # series of 1/(1 + b1 a + ...)), term by term: degree level - power, nothing beyond
+        kmax = level - power
+        for k in range(npts):
+            rng = c.rng_for(seed, LAW, cell, k)
+            beta0, b = _bs_for(cell, rng, level)
+            fx = _expanded(cell["name"], beta0, b)
+            s, l = c.coupling_pair(rng, 0.001, 0.1, 1.3, 20.0)
+            a1, a0 = c.directed((s, l), cell["dir"])
+            cs = _series(b, level, kmax)
+            terms = []
+            for q in range(kmax + 1):
+                p = power - 2 + q
+                terms.append(cs[q] * (math.log(a1 / a0) if p == -1 else (a1 ** (p + 1) - a0 ** (p + 1)) / (p + 1)) / beta0)
+            res = abs(complex(fx(a1, a0)) - sum(terms)) / max(abs(t) for t in terms)
+            worst = c.worse(worst, res)
+        return {"dec": c.decades(worst), "raw": worst, "resolved": True}
 
     for k in range(npts):
         rng = c.rng_for(seed, LAW, cell, k)
